@@ -670,6 +670,8 @@ def nearest_neighbor_tcrdist(df, chain='beta', max_edits=2, edit_on_trimmed=True
     vdists = pd.read_csv(path, index_col=0)
 
     neighbors_arr = np.array(neighbors)
+    if len(neighbors_arr) == 0:
+        return np.empty((0, 3))
     edges = neighbors_arr[:, :2]
     tcrdist_v = _lookup(vdists,
                         df[f'TR{chain_letter}V'].iloc[edges[:, 0]],
